@@ -376,7 +376,7 @@ package kcp
 //@   loop 1 invariant kcp.wfR() && kcp.wfW() && kcp.wfH() && kcp.rcv_queue.sameOrFresh() && kcp.rcv_buf.sameOrFresh()
 //@   loop 1 invariant (old(kcp.rcvQ()) ==> kcp.rcvQ()) && itimediff(kcp.rcv_nxt, old(kcp.rcv_nxt)) >= 0 && kcp.rcv_queue.rlen() - old(kcp.rcv_queue.rlen()) == itimediff(kcp.rcv_nxt, old(kcp.rcv_nxt))
 //
-//@ func KCP.Send
+//@ func KCP.Send counted
 //@   ensures @C01 [a-chunk-of-at-most-one-segment-is-always-queued] 0 < old(len(buffer)) && old(len(buffer)) <= kcp.mss ==> result == 0
 //@   ensures @C18 [unsent-segments-carry-no-timer] old(kcp.wfU()) ==> kcp.wfU()
 //@   loop 2 invariant @C18 old(kcp.wfU()) ==> kcp.wfU()
@@ -425,6 +425,11 @@ package kcp
 //@ pred sameOrFreshSlice(a []ackItem, b []ackItem) = ref(a) == ref(b) || fresh(a)
 //
 //@ func KCP.Input
+//@   callsite KCP.parse_data requires @C11 [only-segments-of-this-conversation-are-processed] conv == kcp.conv
+//@   callsite KCP.parse_una requires @C11 [only-segments-of-this-conversation-are-processed] conv == kcp.conv
+//@   callsite KCP.parse_ack requires @C11 [only-segments-of-this-conversation-are-processed] conv == kcp.conv
+//@   callsite KCP.parse_fastack requires @C11 [only-segments-of-this-conversation-are-processed] conv == kcp.conv
+//@   callsite KCP.ack_push requires @C11 [only-segments-of-this-conversation-are-processed] conv == kcp.conv
 //@   ensures @C01 [receive-queue-in-sequence-order] old(kcp.rcvQ()) ==> kcp.rcvQ()
 //@   loop 1 invariant old(kcp.rcvQ()) ==> kcp.rcvQ()
 //@   requires kcp.wf()
@@ -577,7 +582,7 @@ package kcp
 //@      && len(enc.shardCache) == enc.shardSize && len(enc.encodeCache) == enc.shardSize
 //@      && ref(enc.shardCache) != ref(enc.encodeCache)
 //@ pred (enc *fecEncoder) wfRows() = 0 <= enc.shardCount && enc.shardCount < enc.dataShards && 0 <= enc.maxSize && enc.maxSize <= 1500
-//@      && (enc.shardCount > 0 ==> enc.payloadOffset + 2 <= enc.maxSize)
+//@      && (enc.shardCount > 0 ==> enc.payloadOffset + 2 <= enc.maxSize) && (enc.shardCount == 0 ==> enc.maxSize == 0)
 //@      && (forall k int :: 0 <= k && k < len(enc.shardCache) ==> cap(enc.shardCache[k]) == 1500)
 //@      && (forall k int :: 0 <= k && k < enc.shardCount ==> enc.payloadOffset + 2 <= len(enc.shardCache[k]) && len(enc.shardCache[k]) <= enc.maxSize)
 //@      && enc.parityRows()
@@ -809,6 +814,7 @@ package kcp
 //@   requires s.imm() && !held(s.mu)
 //@   modifies everything
 //@   callsite KCP.Send requires @C04 [write-admitted-only-below-send-window] waitsnd < s.kcp.snd_wnd && held(s.mu)
+//@   section UDPSession.mu ensures @C04 [write-queues-only-if-fewer-than-a-window-were-pending-at-admission] calls(KCP.Send, s.kcp) > old(calls(KCP.Send, s.kcp)) ==> old(s.kcp.snd_buf.rlen() + s.kcp.snd_queue.rlen()) < old(s.kcp.snd_wnd)
 //@   callsite KCP.Send requires @C01 [every-chunk-handed-to-the-core-fits-one-segment] len(buffer) <= s.kcp.mss
 //@   loop 0 invariant s.imm() && !held(s.mu) && n >= 0
 //@   loop 1 invariant s.imm() && !held(s.mu) && n >= 0
@@ -1009,3 +1015,35 @@ package kcp
 //@ kind fecgroup fecDecoder.newestShardId local:fecDecoder.decode.shardId local:fecDecoder.discardShards.shardId
 //@ kindfunc fecDecoder.getShardId fecgroup
 //@ kind paws fecEncoder.paws fecDecoder.paws
+
+// ===================================================================================
+// readloop.go - the dialled session's source filter (C11): two UDP addresses are the same source
+// exactly if IP, port and zone agree.
+// ===================================================================================
+//
+//@ spec ipeq(a []byte, b []byte) bool = a == b || ufb(ipEqual, a, b)
+// udpsrc: the datagram's source as a UDP address (nil if it is not one)
+//@ pred fromUDPSource(src *net_UDPAddr, addr any) = src != nil ==> typeis(addr, ptr_net_UDPAddr) && unboxptr(addr, net_UDPAddr) != nil
+//@        && unboxptr(addr, net_UDPAddr).Port == src.Port && unboxptr(addr, net_UDPAddr).Zone == src.Zone && ipeq(src.IP, unboxptr(addr, net_UDPAddr).IP)
+//@ pred fromSource(src *net_UDPAddr, srcStr string, addr any) = fromUDPSource(src, addr) && (src == nil ==> addrstr(addr) == srcStr)
+//@ func UDPSession.defaultReadLoop
+//@   requires s.imm()
+//@   modifies everything
+//@   callsite UDPSession.packetInput requires @C11 [admitted-datagram-matches-the-session-source] fromSource(src, srcStr, addr)
+//@   loop 1 invariant s.imm() && DefaultSnmp != nil
+// golang.org/x/net's batch read (trusted): every returned message carries a real source address
+//@ func batchConn.ReadBatch trusted
+//@   modifies everything
+//@   ensures result1 == nil ==> 0 <= result0 && result0 <= len(ms)
+//@   ensures result1 == nil ==> forall j int :: 0 <= j && j < result0 ==> ms[j].Addr != nil && (typeis(ms[j].Addr, ptr_net_UDPAddr) ==> unboxptr(ms[j].Addr, net_UDPAddr) != nil)
+//@ func UDPSession.readLoop
+//@   requires s.imm()
+//@   modifies everything
+// (the batch loop hands its message array to packetInput, whose frame is `everything`: the facts
+// about later messages of the batch are lost, so only the UDP-address case is claimed here)
+//@   callsite UDPSession.packetInput requires @C11 [admitted-datagram-matches-the-session-source] fromUDPSource(src, msg.Addr)
+//@   loop 1 invariant s.imm() && DefaultSnmp != nil
+//@   loop 2 invariant s.imm() && DefaultSnmp != nil
+//@   loop 3 invariant s.imm() && DefaultSnmp != nil
+//@ func sameUDPAddr
+//@   ensures @C11 [same-source-means-same-ip-port-and-zone] result == (a != nil && b != nil && a.Port == b.Port && a.Zone == b.Zone && ipeq(a.IP, b.IP))
